@@ -45,7 +45,7 @@ ASSUMPTIONS = [
     'dialogue harness: the checking thread waits (bounded wall clock, expiry = inconclusive) until its own select() sees the kernel state the peer action '
     'produces, then ticks a bounded number of times; verdicts are on the resulting streams only',
 ]
-REQUIRED = ['second_component_registers_the_other_role', 'one_of_two_registering_components_left', 'event_addressed_to_the_component_that_remained', 'descriptor_registered_by_number', 'descriptor_number_zero_registered', 'closed_object_number_reused_by_new_registration', 'intfd_control_events_seen', 'change_inside_select_call', 'inselect_control_event_seen', 'iter_select', 'iter_poll', 'iter_epoll', 'reader_ready_emitted', 'writer_ready_emitted', 'registered_not_ready_silent',
+REQUIRED = ['closed_number_reused_and_registered_again_by_number', 'second_component_registers_the_other_role', 'one_of_two_registering_components_left', 'event_addressed_to_the_component_that_remained', 'descriptor_registered_by_number', 'descriptor_number_zero_registered', 'closed_object_number_reused_by_new_registration', 'intfd_control_events_seen', 'change_inside_select_call', 'inselect_control_event_seen', 'iter_select', 'iter_poll', 'iter_epoll', 'reader_ready_emitted', 'writer_ready_emitted', 'registered_not_ready_silent',
             'ready_not_registered_silent', 'remove_one_role_other_stays', 'readd_after_discard', 'owner_changed_after_discard',
             'send_buffer_full_not_writable', 'writable_again_after_drain', 'peer_closed_hup', 'disconnect_instead_of_write', 'half_close_read',
             'peer_reset', 'discard_then_close', 'close_then_discard', 'close_without_discard', 'fd_number_reused',
@@ -1505,6 +1505,28 @@ def intfd_cases(b):
             if served < 3:
                 problems.append(('COMPLETE_READ', {'poller': pname, 'note': 'another registered, readable descriptor was no longer reported after a '
                                                    'number-registered descriptor had been closed', 'iterations_served': served, 'exceptions': excs[:2]}))
+            # ... and the new holder of the number is then registered by that number, for the same role, by another component: registered and
+            # ready, so it is reported - in every iteration, to the component that registered it now
+            sy = BaseComponent(channel='y').register(root)
+            while len(root):
+                root.flush()
+            (poller.addReader if role == 'reader' else poller.addWriter)(sy, number)
+            again = []
+            for _ in range(2):
+                del seen[:]
+                iterate()
+                again.append([(n, ch) for n, o, ch in seen if o == number])
+            b.reached('closed_number_reused_and_registered_again_by_number')
+            wname = '_read' if role == 'reader' else '_write'
+            if not all(any(n == wname for n, _ in it_) for it_ in again):
+                problems.append(('COMPLETE_READ' if role == 'reader' else 'COMPLETE_WRITE',
+                                 {'poller': pname, 'note': 'the number of a descriptor that was closed without discard() was taken over by another descriptor, which '
+                                  'was then registered by that number: registered and ready, but not reported', 'events_per_iteration': again}))
+            elif any(n == wname and 'y' not in ch for it_ in again for n, ch in it_):
+                problems.append(('ADDRESS', {'poller': pname, 'note': 'events for the re-registered number went to the component that had registered the closed one',
+                                             'events_per_iteration': again}))
+            else:
+                b.ok('ADDRESS')
             if excs:
                 problems.append(('POLLER_RAISED', {'poller': pname, 'exceptions': excs[:3]}))
             if problems:
